@@ -216,9 +216,9 @@ Proof. intros. apply idchar_notin; auto. apply wf_id_idchars; auto. Qed.
 
 (* ------------------------------------------------------------------ lhs forms *)
 Lemma split_equation_assign l r : notin "=" l = true -> notin "=" r = true ->
-  split_equation (l ++ s2l " = " ++ r) = Some (l, r).
+  split_equation (l ++ s2l " = " ++ r) = Some (l, r, ["="]).
 Proof.
-  intros Nl Nr. unfold split_equation.
+  intros Nl Nr. unfold split_equation, assign_type.
   change (s2l "+=") with ["+"; "="]. rewrite (contains2_assign "+"); auto; [|discriminate].
   assert (C : contains ["="] (l ++ s2l " = " ++ r) = true).
   { change (s2l " = ") with ([" "] ++ ["="] ++ [" "]). rewrite <- !app_assoc. rewrite (app_assoc l [" "]).
@@ -227,24 +227,33 @@ Proof.
   assert (NA : not_assign_only (l ++ s2l " = " ++ r) = false).
   { unfold not_assign_only. cbn [existsb s2l list_ascii_of_string].
     rewrite (contains2_assign "<"), (contains2_assign ">"), (contains2_assign "="), (contains2_assign "!"); auto; discriminate. }
-  rewrite NA. rewrite (contains_mid (s2l " = ") l r).
-  apply (split_first_mid (s2l " = ") " " "=" [" "]); auto. discriminate.
+  rewrite NA. cbn [negb]. unfold split4. change (" " :: ["="] ++ [" "]) with (s2l " = ").
+  rewrite (contains_mid (s2l " = ") l r).
+  rewrite (split_first_mid (s2l " = ") " " "=" [" "]); auto. discriminate.
 Qed.
 
-Definition de_eqn (x r : str) : cres := CEqn {| e_lhs := x; e_key := x; e_de := true; e_rhs := r |}.
+Definition de_eqn (x r : str) : cres := CEqn {| e_lhs := x; e_key := x; e_de := true; e_rhs := r; e_asg := ["="] |}.
 
-Theorem lhs_ddt x r : wf_id x = true -> notin "=" r = true ->
-  classify (s2l "d/dt * " ++ x ++ s2l " = " ++ r) = de_eqn x r.
+Lemma mk_eqn_id x r : wf_id x = true -> mk_eqn x r true ["="] = de_eqn x r.
 Proof.
-  intros W N. unfold classify. rewrite (app_assoc (s2l "d/dt * ") x).
+  intros W. unfold mk_eqn, de_eqn, before. cbn [str_eqb Ascii.eqb Bool.eqb andb negb].
+  rewrite (split_first_absent "(" ["("]); [|simpl; auto|apply wf_id_notin; auto].
+  rewrite (remove_char_absent " "); [reflexivity|apply wf_id_notin; auto].
+Qed.
+
+Theorem lhs_ddt leib x r : wf_id x = true -> notin "=" r = true ->
+  classify_gen leib (s2l "d/dt * " ++ x ++ s2l " = " ++ r) = de_eqn x r.
+Proof.
+  intros W N. unfold classify_gen. rewrite (app_assoc (s2l "d/dt * ") x).
   rewrite split_equation_assign; auto.
   2:{ rewrite notin_app. rewrite (wf_id_notin "=" x); auto. }
+  unfold classify_split.
   assert (C1 : contains (s2l "d/dt") (s2l "d/dt * " ++ x) = true)
     by (apply (contains_mid (s2l "d/dt") [] (s2l " * " ++ x))).
   assert (C2 : split_first ["*"] (s2l "d/dt * " ++ x) = Some (s2l "d/dt ", " " :: x)) by reflexivity.
   rewrite C1, C2.
   assert (R1 : remove_char "*" (" " :: x) = " " :: x) by (apply remove_char_absent; simpl; apply wf_id_notin; auto).
-  rewrite R1. unfold mk_eqn, de_eqn, before.
+  rewrite R1. unfold mk_eqn, de_eqn, before. cbn [str_eqb Ascii.eqb Bool.eqb andb negb].
   assert (R2 : split_first ["("] (" " :: x) = None)
     by (apply (split_first_absent "("); [simpl; auto|simpl; apply wf_id_notin; auto]).
   rewrite R2.
@@ -253,27 +262,90 @@ Proof.
   rewrite R3. reflexivity.
 Qed.
 
-Theorem lhs_prime x r : wf_id x = true -> notin "=" r = true ->
-  classify (x ++ s2l "' = " ++ r) = de_eqn x r.
+Theorem lhs_prime leib x r : wf_id x = true -> notin "=" r = true ->
+  classify_gen leib (x ++ s2l "' = " ++ r) = de_eqn x r.
 Proof.
-  intros W N. unfold classify.
+  intros W N. unfold classify_gen.
   change (s2l "' = ") with (["'"] ++ s2l " = "). rewrite <- app_assoc. rewrite (app_assoc x ["'"]).
   rewrite split_equation_assign; auto.
   2:{ rewrite notin_app. rewrite (wf_id_notin "=" x); auto. }
+  unfold classify_split.
   rewrite (contains_absent "/" (s2l "d/dt")); [|simpl; auto|].
   2:{ rewrite notin_app. rewrite (wf_id_notin "/" x); auto. }
   replace (x ++ ["'"]) with (x ++ ["'"] ++ []) by reflexivity.
   rewrite (contains_mid ["'"] x []).
   unfold py_replace. rewrite replace_drop_last; [|apply wf_id_notin; auto|rewrite app_length; simpl; lia].
-  unfold mk_eqn, de_eqn, before.
-  rewrite (split_first_absent "(" ["("]); [|simpl; auto|apply wf_id_notin; auto].
-  rewrite (remove_char_absent " "); [reflexivity|apply wf_id_notin; auto].
+  apply mk_eqn_id; auto.
 Qed.
 
 Theorem lhs_forms x r : wf_id x = true -> notin "=" r = true ->
   classify (s2l "d/dt * " ++ x ++ s2l " = " ++ r) = classify (x ++ s2l "' = " ++ r) /\
   classify (x ++ s2l "' = " ++ r) = de_eqn x r.
-Proof. intros. rewrite lhs_ddt, lhs_prime; auto. Qed.
+Proof. intros. unfold classify. rewrite lhs_ddt, lhs_prime; auto. Qed.
+
+(* the third notation dx/dt = r (after repair D154): same classification, provided x does not end in `d`
+   (`dd/dt` contains the text d/dt and is taken for the first notation) *)
+Fixpoint lastc (c0 : ascii) (x : str) : ascii := match x with [] => c0 | a :: x' => lastc a x' end.
+
+Lemma split_first_fresh a q : forall l r, notin a l = true -> split_first (a :: q) (l ++ (a :: q) ++ r) = Some (l, r).
+Proof.
+  induction l as [|x l IH]; intros r N.
+  - rewrite app_nil_l. rewrite split_first_prefix by apply prefix_app. rewrite skipn_app_len. reflexivity.
+  - simpl in N. apply andb_true_iff in N. destruct N as [N1 N2]. rewrite <- app_comm_cons. rewrite split_first_step.
+    + rewrite (IH r N2). reflexivity.
+    + cbn [prefix]. apply negb_true_iff in N1. rewrite Ascii.eqb_sym, N1. reflexivity.
+Qed.
+
+Lemma find_ddt_none : forall x c0, notin "/" (c0 :: x) = true -> lastc c0 x <> "d" ->
+  find (s2l "d/dt") ((c0 :: x) ++ s2l "/dt") = None.
+Proof.
+  induction x as [|a x IH]; intros c0 N L.
+  - cbn [lastc] in L. destruct (Ascii.eqb "d" c0) eqn:E; [apply Ascii.eqb_eq in E; congruence|].
+    change (([c0]) ++ s2l "/dt") with (c0 :: s2l "/dt"). rewrite find_step; [reflexivity|].
+    change (s2l "d/dt") with ("d" :: s2l "/dt"). cbn [prefix]. rewrite E. reflexivity.
+  - pose proof N as N'. cbn [notin forallb] in N. apply andb_true_iff in N. destruct N as [_ N].
+    apply andb_true_iff in N. destruct N as [Na _]. apply negb_true_iff in Na.
+    rewrite <- app_comm_cons. rewrite find_step.
+    + rewrite (IH a (notin_tail _ _ _ N') L). reflexivity.
+    + rewrite <- app_comm_cons. cbn [s2l list_ascii_of_string prefix]. rewrite (Ascii.eqb_sym "/" a), Na.
+      cbn [andb]. apply andb_false_r.
+Qed.
+
+Theorem lhs_leibniz x r : wf_id x = true -> lastc "d" x <> "d" -> notin "=" r = true ->
+  classify_gen true ("d" :: x ++ s2l "/dt = " ++ r) = de_eqn x r.
+Proof.
+  intros W L N. unfold classify_gen.
+  replace ("d" :: x ++ s2l "/dt = " ++ r) with ((("d" :: x) ++ s2l "/dt") ++ s2l " = " ++ r)
+    by (rewrite <- !app_assoc; reflexivity).
+  assert (NS : notin "/" ("d" :: x) = true) by (simpl; apply wf_id_notin; auto).
+  rewrite split_equation_assign; auto.
+  2:{ rewrite notin_app. simpl. rewrite (wf_id_notin "=" x); auto. }
+  unfold classify_split.
+  assert (C0 : contains (s2l "d/dt") (("d" :: x) ++ s2l "/dt") = false)
+    by (unfold contains; rewrite find_ddt_none; auto).
+  rewrite C0.
+  rewrite (contains_absent "'" ["'"]); [|simpl; auto|rewrite notin_app; simpl; rewrite (wf_id_notin "'" x); auto].
+  assert (C1 : contains ["d"] (("d" :: x) ++ s2l "/dt") = true) by (apply (contains_mid ["d"] [] (x ++ s2l "/dt"))).
+  assert (C2 : contains (s2l "/dt") (("d" :: x) ++ s2l "/dt") = true)
+    by (replace (("d" :: x) ++ s2l "/dt") with (("d" :: x) ++ s2l "/dt" ++ []) by (rewrite app_nil_r; reflexivity);
+        apply contains_mid).
+  rewrite C1, C2. cbn [andb]. unfold before.
+  assert (SP : split_first (s2l "/dt") (("d" :: x) ++ s2l "/dt") = Some ("d" :: x, []))
+    by (apply (split_first_fresh "/" (s2l "dt") ("d" :: x) [] NS)).
+  rewrite SP.
+  cbn [remove_first_char Ascii.eqb Bool.eqb andb]. apply mk_eqn_id; auto.
+Qed.
+
+Example lhs_leibniz_refuted_dd :
+  classify_gen true (s2l "dd/dt = r") = CEqn {| e_lhs := []; e_key := []; e_de := true; e_rhs := s2l "r"; e_asg := ["="] |}.
+Proof. vm_compute. reflexivity. Qed.
+
+Example classify_other_forms :
+  classify (s2l "x += 2*r") = CEqn {| e_lhs := s2l "x"; e_key := s2l "x"; e_de := false; e_rhs := s2l "2*r"; e_asg := s2l "+=" |} /\
+  classify (s2l "x -= 1") = CEqn {| e_lhs := s2l "x-"; e_key := s2l "x-"; e_de := false; e_rhs := s2l "1"; e_asg := ["="] |} /\
+  classify (s2l "r + 1") = CEqn {| e_lhs := s2l "x"; e_key := s2l "x"; e_de := false; e_rhs := s2l "r + 1"; e_asg := ["="] |} /\
+  classify (s2l "d/dt * x += r") = CValueError /\ classify (s2l "dx/dt = r") = CRaises.
+Proof. repeat split; vm_compute; reflexivity. Qed.
 
 
 (* ================================================================== part LP3 *)
@@ -1034,7 +1106,7 @@ Proof.
 Qed.
 Theorem eval_identity cx a : eval cx (Call (s2l "identity") [a]) = eval cx a /\
   eval cx (Call (s2l "no_op") [a]) = eval cx a.
-Proof. split; destruct a; reflexivity. Qed.
+Proof. split; destruct a; cbn; try reflexivity; match goal with |- context [fn1 _ ?v] => destruct v; reflexivity end. Qed.
 
 Example surgery_repaired_precedence :
   let env := [(s2l "r", mkq 3 2); (s2l "rr", mkq 1 4)] in
